@@ -26,7 +26,10 @@ def conv(t, w=None):
         if x.id in _cache:
             stack.pop(); continue
         if x.op == 'var':
-            _cache[x.id] = z3.Bool(x.args[0]) if x.w == 0 else z3.BitVec(x.args[0], x.w)
+            from .term import VAR_DEFS
+            d = VAR_DEFS.get(x.args[0])
+            if d is not None: _cache[x.id] = z3.BitVecVal(d, x.w)
+            else: _cache[x.id] = z3.Bool(x.args[0]) if x.w == 0 else z3.BitVec(x.args[0], x.w)
             stack.pop(); continue
         pend = [a for a in x.args if isinstance(a, Term) and a.id not in _cache]
         if pend:
